@@ -60,14 +60,15 @@ type c18Obs struct {
 	SrvFinal   int  `json:"srv_final,omitempty"`
 	ConnectErr bool `json:"connect_err,omitempty"`
 	// e2e, while the session is up: successful pings so far / keep-alive bytes the server then saw in the XML stream (bounded wait)
-	MidWant     int       `json:"mid_want,omitempty"`
-	MidGot      int       `json:"mid_got,omitempty"`
-	LostWhileUp bool      `json:"lost_while_up,omitempty"` // e2e: Disconnected before the harness ended the session
-	RawBad      string    `json:"raw_bad,omitempty"`       // e2e over TLS: first thing on the socket that is not a TLS record
-	DetectUs    int64     `json:"detect_us,omitempty"`     // ws: from the cut to the Disconnected event
-	PanicMsg    string    `json:"panic_msg,omitempty"`     // the keep-alive goroutine panicked with this
-	Re          *c18ReObs `json:"re,omitempty"`            // kind re: sessions and loops on one client object
-	Wire        string    `json:"wire,omitempty"`          // tcp/e2e: what the server read in the XML stream where keep-alives go
+	MidWant        int       `json:"mid_want,omitempty"`
+	MidGot         int       `json:"mid_got,omitempty"`
+	LostWhileUp    bool      `json:"lost_while_up,omitempty"`    // e2e: Disconnected before the harness ended the session
+	RawBad         string    `json:"raw_bad,omitempty"`          // e2e over TLS: first thing on the socket that is not a TLS record
+	DetectUs       int64     `json:"detect_us,omitempty"`        // ws: from the cut to the Disconnected event
+	PanicMsg       string    `json:"panic_msg,omitempty"`        // the keep-alive goroutine panicked with this
+	CloseAfterFail bool      `json:"close_after_fail,omitempty"` // the failed ping was answered by Close
+	Re             *c18ReObs `json:"re,omitempty"`               // kind re: sessions and loops on one client object
+	Wire           string    `json:"wire,omitempty"`             // tcp/e2e: what the server read in the XML stream where keep-alives go
 }
 
 // kaIsWS: XML white space. A whitespace keep-alive is any non-empty run of it (the property
@@ -135,7 +136,7 @@ func (c18) Workers() int  { return 8 }
 // driver then finds the case through the per-worker journal.
 func (c18) Journal() bool { return true }
 func (c18) Rule() string {
-	return "keepalive goroutine (VerifKeepalive) on a recording stub transport, intervals 1-10 ms: run for T then close quit; quit closed at a random phase of the ticker (0-5 intervals + 0-99 %, incl. exactly on a tick); quit closed before the goroutine starts; Ping failing at the k-th call for every k in 1..10 x interval; interval 0 / negative. Real XMPPTransport over loopback TCP (scripted server records every byte after the stream header): healthy run, server resets / closes the connection after reading n bytes (Close waiting out its timeout or answered at once). Real XMPPTransport over a scripted net.Conn: every conn.Write / conn.Close call, scripted write results (short counts, errors; after an error the connection stays dead for writing while reads block), with and without a real Client receive loop blocked on the same connection and sharing quit: the connection must get closed after the failed keep-alive and the loss be reported (ErrorHandler, Disconnected). End to end: real Client.Connect (KeepaliveInterval 2-5 ms) against the scripted XMPP server (SASL PLAIN + bind), session up for T, then ended by a server reset / the server's </stream:stream> / Client.Disconnect at a random phase; Ping and Close calls logged by a wrapper around the client's transport, keep-alive bytes counted at the server; after the Disconnected event + grace nothing may be pinged for 10 more intervals; sessions ended by a server <stream:error/> with application callbacks that BLOCK (the StateStreamError handler for 6.5 intervals, the error callback for 2; they run synchronously in the receive loop): from the moment the stream error is received (+ half an interval) no Ping call and no keep-alive byte at the server, although the handlers are still running; the same over real STARTTLS with the certificate verified (RootCAs) and with InsecureSkipVerify: the keep-alive bytes must show up in the DECRYPTED stream at the server, the raw socket must carry nothing but TLS records, the session must not be torn down while it is up. WebSocket transport end to end (loopback nhooyr.io/websocket server, RFC 7395 open exchange, keepalive + receive loop started as Client.Connect does): pings answered for T, then the TCP connection underneath is reset / closed: the failed keep-alive (a WebSocket ping control frame, not whitespace: only the closed-so-that-the-loss-is-reported clause is checked there) the loss must be reported exactly once (ErrorHandler + Disconnected) by whichever path notices first - the transport's reader or the failing keep-alive, which then calls Close - and the keep-alive loop be over; and a peer that goes SILENT without closing (a TCP relay stops forwarding; reads just block): only the keep-alive can notice, its ping times out after the library's 5 s, Close follows, the loss is reported once. Sessions on ONE Client object (the Transport is re-used by Resume; every Ping/Close logged with its goroutine, keep-alive bytes counted per server connection): drop then Resume; a stream error during which the keep-alive fails while the receiver sits in Close (ConnectTimeout 1 s), then Resume: the Close entered for session 1 must not close session 2's connection; a stream error whose StateStreamError handler does what a StreamManager does (Disconnect, back-off, Resume, returning only when the new session is up): no keep-alive of the dead session on ANY connection of the client from the stream error until the new session is up; a PostResumeHook that fails once: exactly one keep-alive loop per established session, none left by the failed attempt, its session closed. A negative KeepaliveInterval through NewClient/Connect (a crash of the library's goroutine is found through the crash journal). WebSocket: Disconnect while a keep-alive ping awaits its pong (the failed ping is answered with a second Close, which must not panic). The liveness bound applies to windows of at least 6 intervals and 30 ms. The model receives the observed schedule (successful pings before the terminating event, how the run ended) plus a random continuation and must reproduce the ordered log ping-ok/ping-failed/Close/loop-over, the number of keep-alives the server reads, the calls on the connection and the reporting of the loss. A keep-alive is compared as a CLASS: any non-empty run of XML white space (space, tab, CR, LF) written by one Ping, on the connection and in the stream the server reads; what happens for an interval <= 0 is outside the property and not compared beyond nothing-sent-nothing-closed; distinct = scenario parameters; non-trivial = at least 2 pings before the terminating event"
+	return "keepalive goroutine (VerifKeepalive) on a recording stub transport, intervals 1-10 ms: run for T then close quit; quit closed at a random phase of the ticker (0-5 intervals + 0-99 %, incl. exactly on a tick); quit closed before the goroutine starts; Ping failing at the k-th call for every k in 1..10 x interval; interval 0 / negative. Real XMPPTransport over loopback TCP (scripted server records every byte after the stream header): healthy run, server resets / closes the connection after reading n bytes (Close waiting out its timeout or answered at once). Real XMPPTransport over a scripted net.Conn: every conn.Write / conn.Close call, scripted write results (short counts, errors; after an error the connection stays dead for writing while reads block), with and without a real Client receive loop blocked on the same connection and sharing quit: the connection must get closed after the failed keep-alive and the loss be reported (ErrorHandler, Disconnected). End to end: real Client.Connect (KeepaliveInterval 2-5 ms) against the scripted XMPP server (SASL PLAIN + bind), session up for T, then ended by a server reset / the server's </stream:stream> / Client.Disconnect at a random phase; Ping and Close calls logged by a wrapper around the client's transport, keep-alive bytes counted at the server; after the Disconnected event + grace nothing may be pinged for 10 more intervals; sessions ended by a server <stream:error/> with application callbacks that BLOCK (the StateStreamError handler for 6.5 intervals, the error callback for 2; they run synchronously in the receive loop): from the moment the stream error is received (+ half an interval) no Ping call and no keep-alive byte at the server, although the handlers are still running; the same over real STARTTLS with the certificate verified (RootCAs) and with InsecureSkipVerify: the keep-alive bytes must show up in the DECRYPTED stream at the server, the raw socket must carry nothing but TLS records, the session must not be torn down while it is up. WebSocket transport end to end (loopback nhooyr.io/websocket server, RFC 7395 open exchange, keepalive + receive loop started as Client.Connect does): pings answered for T, then the TCP connection underneath is reset / closed: the failed keep-alive (a WebSocket ping control frame, not whitespace: only the closed-so-that-the-loss-is-reported clause is checked there) the loss must be reported exactly once (ErrorHandler + Disconnected) by whichever path notices first - the transport's reader or the failing keep-alive, which then calls Close - and the keep-alive loop be over; and a peer that goes SILENT without closing (a TCP relay stops forwarding; reads just block): only the keep-alive can notice, its ping times out after the library's 5 s, Close follows, the loss is reported once. Sessions on ONE Client object (the Transport is re-used by Resume; every Ping/Close logged with its goroutine, keep-alive bytes counted per server connection): drop then Resume; a stream error during which the keep-alive fails while the receiver sits in Close (ConnectTimeout 1 s), then Resume: the Close entered for session 1 must not close session 2's connection; a stream error whose StateStreamError handler does what a StreamManager does (Disconnect, back-off, Resume, returning only when the new session is up): no keep-alive of the dead session on ANY connection of the client from the stream error until the new session is up; the loop HELD at the entry of transport.Ping (i.e. past its poll of quit: where the scheduler may stop it) while the session ends and the client is resumed: that one ping may go out, on the new connection, and is the only one; held again after a refused re-dial so that the ping fails for want of a connection, and at the entry of Close while a second re-dial succeeds: the loop must not answer that failure with Close (it would close the new session); a PostConnectHook that fails (Connect returns its error: the session must not be left up without keep-alive and receiver); a PostResumeHook that fails once: exactly one keep-alive loop per established session, none left by the failed attempt, its session closed. A negative KeepaliveInterval through NewClient/Connect (a crash of the library's goroutine is found through the crash journal). WebSocket: Disconnect while a keep-alive ping awaits its pong (the failed ping is answered with a second Close, which must not panic). The liveness bound applies to windows of at least 6 intervals and 30 ms. The model receives the observed schedule (successful pings before the terminating event, how the run ended) plus a random continuation and must reproduce the ordered log ping-ok/ping-failed/Close/loop-over, the number of keep-alives the server reads, the calls on the connection and the reporting of the loss. A keep-alive is compared as a CLASS: any non-empty run of XML white space (space, tab, CR, LF) written by one Ping, on the connection and in the stream the server reads; what happens for an interval <= 0 is outside the property and not compared beyond nothing-sent-nothing-closed; distinct = scenario parameters; non-trivial = at least 2 pings before the terminating event"
 }
 
 func c18Suffix(r *rand.Rand) []int {
@@ -294,6 +295,9 @@ func (c18) Gen(r *rand.Rand, tier string) []interface{} {
 	}
 	for i := 0; i < nre; i++ {
 		add(&c18In{Kind: "re", Variant: "plain", IvUs: 1000 * (3 + r.Intn(4)), Ticks: 5 + r.Intn(6)})
+		add(&c18In{Kind: "re", Variant: "lateping", IvUs: 1000 * (3 + r.Intn(4)), Ticks: 4 + r.Intn(4)})
+		add(&c18In{Kind: "re", Variant: "latefail", IvUs: 1000 * (3 + r.Intn(4)), Ticks: 4 + r.Intn(4)})
+		add(&c18In{Kind: "re", Variant: "connecthook", IvUs: 1000 * (3 + r.Intn(4)), Ticks: 4 + r.Intn(4)})
 		add(&c18In{Kind: "re", Variant: "hookfail", IvUs: 1000 * (3 + r.Intn(4)), Ticks: 5 + r.Intn(6)})
 	}
 	for i := 0; i < (nre+5)/6; i++ {
@@ -387,13 +391,62 @@ type kaReal struct {
 	rec  *kaRec
 	slow bool
 	attr bool        // e2e: tell the keep-alive loop's Close calls from everybody else's
+	gate *kaGate     // re: holds the loop at the entry of Ping / Close
 	fc   *kaFakeConn // conn kind: the scripted connection underneath
 	mu   sync.Mutex
 	pw   [][]string // conn kind: payloads of the conn.Write calls made by each Ping
 	pg   [][2]int   // conn kind: [first, end) indices of those calls among all conn.Write calls
 }
 
+// kaGate holds the keep-alive goroutine at the ENTRY of transport.Ping / transport.Close: for the loop this
+// is indistinguishable from being descheduled between two of its statements (after the poll of quit and
+// before the ping; after the failed ping and before Close), which is where the runtime may stop it.
+type kaGate struct {
+	mu        sync.Mutex
+	holdPing  chan struct{}
+	holdClose chan struct{}
+	pingIn    chan struct{}
+	closeIn   chan struct{}
+}
+
+func newKaGate() *kaGate {
+	return &kaGate{pingIn: make(chan struct{}, 8), closeIn: make(chan struct{}, 8)}
+}
+func (g *kaGate) arm(ping bool) chan struct{} {
+	h := make(chan struct{})
+	g.mu.Lock()
+	if ping {
+		g.holdPing = h
+	} else {
+		g.holdClose = h
+	}
+	g.mu.Unlock()
+	return h
+}
+func (g *kaGate) pass(ping bool) {
+	if g == nil {
+		return
+	}
+	g.mu.Lock()
+	h, in := g.holdClose, g.closeIn
+	if ping {
+		h, in = g.holdPing, g.pingIn
+		g.holdPing = nil
+	} else {
+		g.holdClose = nil
+	}
+	g.mu.Unlock()
+	if h != nil {
+		select {
+		case in <- struct{}{}:
+		default:
+		}
+		<-h
+	}
+}
+
 func (t *kaReal) Ping() error {
+	t.gate.pass(true)
 	before := 0
 	if t.fc != nil {
 		before = t.fc.nwrites()
@@ -421,6 +474,9 @@ func (t *kaReal) Close() error {
 		}
 	}
 	t.rec.add(code)
+	if code == kaClose {
+		t.gate.pass(false)
+	}
 	if !t.slow {
 		// what the receive loop does when the server's </stream:stream> arrives;
 		// spares XMPPTransport.Close its ConnectTimeout wait
@@ -478,6 +534,11 @@ func c18Summarise(evs []kaEv, start time.Time, closeAt time.Time, closed bool, a
 				term = true
 			}
 		case kaCloseOther:
+		case kaClose:
+			if len(o.PingUs) > o.NSucc {
+				o.CloseAfterFail = true
+			}
+			term = true
 		case kaReturn:
 			if o.ReturnUs < 0 {
 				o.ReturnUs = e.at.Sub(start).Microseconds()
@@ -1498,7 +1559,15 @@ func (c18) Input(inp interface{}) Sx {
 	for i, s := range in.Suffix {
 		suf[i] = Zi(s & 1)
 	}
-	return L(Zi(in.IvUs), Zi(term), Zi(failAt), Zi(o.NSucc), LS(suf), Zi(mode), B(lossy), Zi(o.SrvN), LS(script), Zi(end), B(in.Kind == "e2e"))
+	// a failed ping not answered by Close: the session ended while it was under way. Only where the end of the
+	// session races with the ping (a real receive loop closes quit) is this taken from the observation; where
+	// the harness owns quit, or nobody but the keep-alive can notice, the model insists on the Close.
+	lateFlag := 0
+	racy := in.Kind == "e2e" || in.Kind == "ws" // ws: the library under the transport closes the connection itself when a ping fails, the reader notices
+	if racy && term == 1 && !o.CloseAfterFail {
+		lateFlag = 1
+	}
+	return L(Zi(in.IvUs), Zi(term), Zi(failAt), Zi(o.NSucc), LS(suf), Zi(mode), B(lossy), Zi(o.SrvN), LS(script), Zi(end), B(in.Kind == "e2e"), Zi(lateFlag))
 }
 
 // ---- direct oracle: the property's own clauses on the observed log ----
@@ -1572,7 +1641,9 @@ func (c18) Oracle(inp interface{}, obs Sx) (string, string) {
 				return "keep-alive sent after a failed keep-alive", "ping-after-failure"
 			}
 		}
-		if cnt[kaClose] != 1 || len(tail) < 1 || tail[0] != kaClose {
+		racy := in.Kind == "e2e" || in.Kind == "ws" // ws: the library under the transport closes the connection itself when a ping fails, the reader notices
+		okNoClose := racy && cnt[kaClose] == 0      // the session ended while that ping was under way: no Close needed
+		if !okNoClose && (cnt[kaClose] != 1 || len(tail) < 1 || tail[0] != kaClose) {
 			return fmt.Sprintf("failed keep-alive followed by %d Close calls (log %v)", cnt[kaClose], codes), "failure-close-count"
 		}
 		if firstRet < 0 {
